@@ -128,6 +128,17 @@ impl FdtReceiver {
         }
     }
 
+    /// Time elapsed since the last packet of this FDT instance, `None` once the instance is no
+    /// longer being received.
+    pub fn last_activity_duration_since(
+        &self,
+        now: std::time::Instant,
+    ) -> Option<std::time::Duration> {
+        self.obj
+            .as_ref()
+            .map(|obj| obj.last_activity_duration_since(now))
+    }
+
     pub fn get_server_time(&self, now: std::time::SystemTime) -> std::time::SystemTime {
         if let Some(offset) = self.sender_current_time_offset {
             if self.sender_current_time_late {
